@@ -40,10 +40,9 @@ def load_mutants():
         for f in sorted(os.listdir(bd)):
             if not f.endswith('.diff'):
                 continue
-            touched = set(re.findall(r'^\+\+\+ b/(\S+)', open(os.path.join(bd, f)).read(), re.M))
-            ps = [p for p in props if touched & set(anchor_files(p))]
-            if not ps:
-                continue
+            # every check is run against every harmless patch: reachability-based rules (PANIC-AUDIT, FAIL-ATOMIC) look at code outside
+            # the property's own files
+            ps = props
             name = 'benign-' + f[:-5]
             ms.append({'name': name, 'property': ','.join(ps), 'expect': 'known-limit' if f[:-5] in limits else 'silent', 'patch': os.path.join(bd, f)})
     return ms
